@@ -96,4 +96,115 @@ def handleC46 (c : Case) : Verdict := Id.run do
   | some (f, d) => return .differ f d
   | none => return .agree nt labels
 
-def main : IO Unit := mainLoop handleC46
+/-- reopen: a sequence of Opens of one node (`att` records) with reads through every returned handle -/
+def handleReopen (c : Case) : Verdict := Id.run do
+  let entries := (c.findAll "blob").toList.map parseEntry
+  let blobs := entries.map (·.content)
+  let total := blobs.flatten.length
+  let baseSizes : List (Option Nat) := entries.map (·.size)
+  let loaded : List (Option (List UInt8)) := blobs.map some
+  let mut tables : List (Nat × List Nat) := []       -- attempt number ↦ table of the model's handle
+  let mut firstDiffer : Option (String × String) := none
+  let mut labels : List String := ["reopen"]
+  let add (ls : List String) (l : String) : List String := if ls.contains l then ls else ls ++ [l]
+  let mut nt := false
+  let mut failedBefore := false
+  for r in c.recs do
+    match r.getD 0 "" with
+    | "att" =>
+      let some an := (r.getD 1 "").toNat? | return .differ "protocol" "bad-att"
+      let kind := r.getD 2 ""
+      let param := (r.getD 3 "").toNat?
+      let sizes : List (Option Nat) :=
+        if kind == "missing" then
+          match param with
+          | some k => (List.range baseSizes.length).map fun i => if i == k then none else baseSizes.getD i none
+          | none => baseSizes
+        else baseSizes
+      let cancelAt : Option Nat := if kind == "pre" || kind == "mid" then param else none
+      let model := openNode sizes cancelAt
+      let implOk := r.getD 4 "" == "ok"
+      labels := add labels ("att-" ++ kind)
+      if r.getD 4 "" == "panic" then return .specfalse "C46:open:panic" s!"attempt {an} {kind}"
+      match model with
+      | .ok cs =>
+        if !implOk then
+          -- nothing prevents this Open from succeeding: every id is in the index, no cancellation in time
+          return .specfalse "C46:open:error-on-complete-file" s!"attempt {an} {kind} {r.getD 3 "-"} after-failed-open={failedBefore}: {(unhexStr (r.getD 5 "-")).getD "?"}"
+        tables := tables ++ [(an, cs)]
+        if failedBefore then labels := add labels "open-after-failed-open"
+        if r.getD 5 "" != toString (cs.getLastD 0) && firstDiffer.isNone then
+          firstDiffer := some ("open-size", s!"attempt {an}: model={cs.getLastD 0} impl={r.getD 5 ""}")
+      | _ =>
+        failedBefore := true
+        if implOk then
+          -- a handle although the Open was cancelled / an id is missing: remember, the reads decide
+          tables := tables ++ [(an, cumsize (entries.map fun e => e.content.length))]
+          if firstDiffer.isNone then
+            firstDiffer := some ("open", s!"attempt {an} {kind}: model fails, impl returns a handle")
+    | "rd" =>
+      let some an := (r.getD 1 "").toNat? | return .differ "protocol" "bad-rd"
+      let some offI := (r.getD 2 "").toInt? | return .differ "protocol" "bad-offset"
+      let some n := (r.getD 3 "").toNat? | return .differ "protocol" "bad-size"
+      let off := offsetOfInt offI
+      let ctx := s!"handle-of-attempt={an} off={offI} n={n} sizes={blobs.map (·.length)}"
+      match r.getD 4 "" with
+      | "ok" =>
+        let out := (unhex (r.getD 5 "-")).getD []
+        if !specOK blobs off n out then
+          let want := (blobs.flatten.drop off).take n
+          let sig :=
+            if off ≥ total then "C46:past-eof:data-returned"
+            else if out.length < want.length && out == want.take out.length then "C46:reopen:short-read"
+            else "C46:reopen:wrong-bytes"
+          return .specfalse sig s!"{ctx} want={hex (want.take 40)} got={hex (out.take 40)} gotlen={out.length}"
+        if !out.isEmpty then nt := true
+        match tables.find? (·.1 == an) with
+        | some (_, cs) =>
+          if readWith cs loaded off n != ReadRes.ok out && firstDiffer.isNone then
+            firstDiffer := some ("read", s!"{ctx} model={resStr (readWith cs loaded off n)}")
+        | none => if firstDiffer.isNone then firstDiffer := some ("read", s!"{ctx}: no handle in the model")
+      | "err" => return .specfalse "C46:read:error-on-healthy-file" ctx
+      | _ => return .specfalse "C46:read:panic" ctx
+    | _ => pure ()
+  match firstDiffer with
+  | some (f, d) => return .differ f d
+  | none => return .agree nt labels
+
+/-- pressure / fusepath: concurrent readers under eviction pressure; lengths and digests only -/
+def handlePressure (c : Case) : Verdict := Id.run do
+  let sizes : List Nat := ((c.find "bsz").map (·.toList.drop 1)).getD [] |>.filterMap String.toNat?
+  let total := sizes.sum
+  let some openR := c.find "open" | return .differ "protocol" "no-open"
+  if openR.getD 1 "" != "ok" then return .specfalse "C46:open:error-on-complete-file" "pressure"
+  if openR.getD 2 "" != toString total then return .differ "open-size" s!"{openR.getD 2 ""} vs {total}"
+  let cs := cumsize sizes
+  let mut nreads := 0
+  let mut crossing := 0
+  for r in c.findAll "rdh" do
+    let off := (r.getD 2 "").toNat?.getD 0
+    let n := (r.getD 3 "").toNat?.getD 0
+    let ctx := s!"goroutine={r.getD 1 ""} off={off} n={n} blobsizes={sizes}"
+    match r.getD 4 "" with
+    | "ok" =>
+      let len := (r.getD 5 "").toNat?.getD 0
+      -- the length the model returns (read_length): min n (total - off)
+      let wantLen := min n (total - off)
+      if len != wantLen then
+        return .specfalse (if len < wantLen then "C46:conc:short-read" else "C46:conc:too-long") s!"{ctx} len={len} want={wantLen}"
+      if r.getD 6 "" != r.getD 7 "?" then
+        return .specfalse "C46:conc:wrong-bytes-under-eviction" s!"{ctx} sha-got={r.getD 6 ""} sha-want={r.getD 7 ""}"
+      nreads := nreads + 1
+      if cs.any (fun b => off < b && b < off + len) then crossing := crossing + 1
+    | "err" => return .specfalse "C46:read:error-on-healthy-file" s!"{ctx} {(unhexStr (r.getD 5 "-")).getD "?"}"
+    | _ => return .specfalse "C46:read:panic" ctx
+  return .agree (nreads > 0) ([c.stream, "concurrent-eviction"] ++ (if crossing > 0 then ["crosses-boundary"] else []))
+
+def handleAll (c : Case) : Verdict :=
+  match c.stream with
+  | "reopen" => handleReopen c
+  | "pressure" => handlePressure c
+  | "fusepath" => handlePressure c
+  | _ => handleC46 c
+
+def main : IO Unit := mainLoop handleAll
